@@ -1,4 +1,5 @@
-import Canopy.Proof.LedgerStakingOps
+import Canopy.Props.C04
+import Canopy.Proof.LedgerOpsInv
 /-!
 # C12 — staking bookkeeping stays consistent and the chain never wedges itself
 
@@ -72,51 +73,126 @@ theorem never_wedged_future_partial : ∀ (n : Nat) (L : Ledger), Live L → L.c
     · rw [hU, e1, e2]; omega
 
 
-/-! ## `InvStaking` is preserved
+/-! ## `InvStaking` is preserved by every modelled operation
 
-Proved for the staking status operations and for the operation the recorded defect lived in; for the remaining
-modelled operations (stake, edit-stake, non-zero slash, reward compounding, parameter-change conformance, genesis) the
-tallies and the biconditionals are checked on the real code after every block by the oracle, and the operations are
-in the correspondence run, but their preservation is not yet a theorem: `invStaking_preserved_partial`. -/
+The operations are those of C04 (`Canopy.C04.Op`): a transaction of any modelled kind (with faucet and fee deduction),
+the begin-block mint, `SlashValidators` (any percent, validators and delegates, with the committee-scoped ejection),
+`HandleCertificateResults` (non-signer settlement: pause + slash, double signers, reward bookkeeping), committee
+retirement, and the full `EndBlock` (reward distribution with auto-compounding, max-pause force-unstake, finished
+unstaking). Parameter changes include `ConformStateToParamUpdate` (forced unstake below a raised minimum, committee
+trimming under a lowered `MaxCommittees`).
 
-/-- the operations for which preservation of the whole `InvStaking` is a theorem -/
-inductive StakingOp
-  | stake (signer a : Addr) (amount : Nat) (committees : List Nat) (delegate compound : Bool) (output : Addr)
-  | editStake (signer a : Addr) (amount : Nat) (committees : List Nat) (compound : Bool) (output : Addr)
-  | unstake (a : Addr) | pause (a : Addr) | unpause (a : Addr)
-  | slashToZero (a : Addr) (val : Validator) (chain percent : Nat)
+Hypotheses, besides those of C04 (`Op.Safe`: no unguarded mint overflow, certificate percents ≤ 100):
+`HeightsOK L` — the three deferred-action heights `height + UnstakingBlocks`, `height + DelegateUnstakingBlocks`,
+`height + MaxPauseBlocks` are not 0 modulo 2^64. The code computes them with an unguarded `+`, and uses height 0 as
+"not unstaking / not paused": at the excluded point a validator would be filed under marker height 0 while its record
+says "not unstaking". For a parameter change the same is required of the parameters it installs. -/
 
-def StakingOp.apply : StakingOp → Ledger → M Ledger
-  | .stake s a x cs d c o, L => handleStake L s a x cs d c o
-  | .editStake s a x cs c o, L => handleEditStake L s a x cs c o
-  | .unstake a, L => handleUnstake L a
-  | .pause a, L => handlePause L a
-  | .unpause a, L => handleUnpause L a
-  | .slashToZero a val chain percent, L => slashValidator L a val chain percent
+open Canopy.C04 (Op)
 
-/-- side conditions: deferred-action heights are not 0 mod 2^64; for the slash: it is applied to the validator's
-current record and its stake rounds to zero -/
-def StakingOp.Ok (L : Ledger) : StakingOp → Prop
-  | .unstake _ => (L.height + L.params.unstakingBlocks) % 2 ^ 64 ≠ 0 ∧ (L.height + L.params.delegateUnstakingBlocks) % 2 ^ 64 ≠ 0
-  | .pause _ => (L.height + L.params.maxPauseBlocks) % 2 ^ 64 ≠ 0
-  | .slashToZero a val chain percent => valGet? L a = some val ∧
-      ∀ p' cs' L0, slashScope L a val chain percent = some (p', cs', L0) → stakeAfterSlash val.stake p' = 0
+/-- the invariant carried along a chain for C12 -/
+def Inv (L : Ledger) : Prop := InvSupply L ∧ PercentsOK L ∧ InvStaking L
+
+/-- the deferred-action heights under the parameters a governance transaction installs -/
+def Op.HeightsAfter (L : Ledger) : Op → Prop
+  | .tx _ _ (.changeParameter _ space key value _ _) => ∀ p, L.params.setUint space key value = .ok p → HeightsOK { L with params := p }
   | _ => True
 
-/-- **`InvStaking` is preserved** by stake, edit-stake (incl. the committee / delegation re-indexing and the tallies of
-every committee), unstake, pause, unpause and by a slash that rounds the stake to zero. `_partial`: the non-zero
-slash, reward compounding inside `EndBlock` (same `UpdateValidatorStake`, proved: `updateValidatorStake_inv`), the
-parameter-change conformance and genesis are not yet lifted to this statement. -/
-theorem invStaking_preserved_partial {L L' : Ledger} {op : StakingOp} (hi : InvSupply L) (hs : InvStaking L) (hok : op.Ok L)
-    (h : op.apply L = .ok L') : InvStaking L' := by
+/-- the explicit hypotheses of C12 -/
+def Op.Safe (L : Ledger) (op : Op) : Prop := Canopy.C04.Op.Safe L op ∧ HeightsOK L ∧ Op.HeightsAfter L op
+
+/-- **`InvStaking` is preserved by every modelled operation.** -/
+theorem invStaking_preserved {L L' : Ledger} {op : Op} (hinv : Inv L) (hsafe : Op.Safe L op) (h : op.apply L = .ok L') :
+    InvStaking L' := by
+  obtain ⟨hi, hp, hs⟩ := hinv
+  obtain ⟨h4, hh, ha⟩ := hsafe
   have hU : (2 : Nat) ^ 64 = U64 := by decide
   cases op with
-  | stake s a x cs d c o => exact handleStake_inv' hs h
-  | editStake s a x cs c o => exact handleEditStake_inv' hi hs h
-  | unstake a => simp only [StakingOp.Ok, hU] at hok; exact handleUnstake_inv hs hok h
-  | pause a => simp only [StakingOp.Ok, hU] at hok; exact handlePause_inv hs hok h
-  | unpause a => exact handleUnpause_inv hs h
-  | slashToZero a val chain percent => exact slashValidator_zero_inv hs hok.1 hok.2 h
+  | tx sender fee msg =>
+    have hm : L.supply.total + txMint L sender fee msg < U64 := by simpa [Canopy.C04.Op.Safe, Canopy.C04.Op.mintBound, hU] using h4
+    refine applyTx_inv hi hs hh hm ?_ h
+    intro sg sp k v s e p hmsg hpp
+    subst hmsg
+    exact ha p hpp
+  | mint => exact hs.of_sameStaking (beginBlockMint_sameStaking h)
+  | slash chain percent addrs => exact (slashValidators_inv hs hh h).1
+  | cert qh rh mem ds pay => exact handleCertificateResults_inv hs hh h
+  | retire chain =>
+    obtain rfl := Except.ok.inj h
+    unfold retireCommittee; split <;> exact hs.of_same rfl rfl rfl rfl rfl rfl rfl
+  | endBlock => exact endBlock_inv hi hp hs hh h
+
+/-- one operation keeps the whole C12 invariant (the two C04 clauses by `Canopy.C04.op_conserves`) -/
+theorem op_preserves {L L' : Ledger} {op : Op} (hinv : Inv L) (hsafe : Op.Safe L op) (h : op.apply L = .ok L') : Inv L' :=
+  have c4 := (Canopy.C04.op_conserves ⟨hinv.1, hinv.2.1⟩ hsafe.1 h).1
+  ⟨c4.1, c4.2, invStaking_preserved hinv hsafe h⟩
+
+/-- an accepted genesis satisfies `InvStaking` (amounts being `uint64`). The loader's duplicate rejection
+(`ValidateGenesisState`, b164a5d; pinned by `genesis_rejects_duplicates`) is what makes the tallies start exact. -/
+theorem invStaking_genesis {cfg : Config} {params : Params} {accounts : List (Addr × Nat)} {pools : List (Nat × Nat)}
+    {vals : List GenesisValidator} {retired : List Nat} {L : Ledger}
+    (ha : ∀ e ∈ accounts, e.2 < 2 ^ 64) (hp : ∀ e ∈ pools, e.2 < 2 ^ 64) (hv : ∀ g ∈ vals, g.val.stake < 2 ^ 64)
+    (h : genesis cfg params accounts pools vals retired = .ok L) : Inv L :=
+  ⟨Canopy.C04.inv_genesis ha hp hv h, genesis_percentsOK h,
+   genesis_invStaking (fun e he => by have := ha e he; unfold MAXU; omega) (fun e he => by have := hp e he; unfold MAXU; omega)
+    (fun g hg => by have := hv g hg; unfold MAXU; omega) h⟩
+
+/-- ledgers reachable from `L₀` by successful, `Safe` operations -/
+inductive Reachable (L₀ : Ledger) : Ledger → Prop
+  | base : Reachable L₀ L₀
+  | step {L L' : Ledger} (op : Op) : Reachable L₀ L → Op.Safe L op → op.apply L = .ok L' → Reachable L₀ L'
+
+/-- **C12, every history.** The staking bookkeeping invariant (with the supply identity) holds on every ledger reachable
+from one that satisfies it … -/
+theorem inv_reachable {L₀ L : Ledger} (h0 : Inv L₀) (hr : Reachable L₀ L) : Inv L := by
+  induction hr with
+  | base => exact h0
+  | step op _ hs h ih => exact op_preserves ih hs h
+
+/-- … in particular from every accepted genesis -/
+theorem invStaking_from_genesis {cfg : Config} {params : Params} {accounts : List (Addr × Nat)} {pools : List (Nat × Nat)}
+    {vals : List GenesisValidator} {retired : List Nat} {L₀ L : Ledger}
+    (ha : ∀ e ∈ accounts, e.2 < 2 ^ 64) (hp : ∀ e ∈ pools, e.2 < 2 ^ 64) (hv : ∀ g ∈ vals, g.val.stake < 2 ^ 64)
+    (hg : genesis cfg params accounts pools vals retired = .ok L₀) (hr : Reachable L₀ L) : InvStaking L :=
+  (inv_reachable (invStaking_genesis ha hp hv hg) hr).2.2
+
+/-- the loader's duplicate rejection as regenerated from the body of `ValidateGenesisState` on this run: which key of
+each record list goes through a `DeDuplicator`, and the error returned on a repeat — the model returns the same ones -/
+theorem genesis_dedup_pinned : Canopy.Gen.LedgerFacts.genesisDedup = [
+    ("Validators", "lib.BytesToString(val.Address)", Err.invalidAddress.code),
+    ("Accounts", "lib.BytesToString(account.Address)", Err.invalidAddress.code),
+    ("Pools", "pool.Id", Err.invalidChainId.code)] := by decide
+
+/-- an accepted genesis lists no validator address, account address or pool id twice -/
+theorem genesis_accepts_only_distinct {cfg : Config} {params : Params} {accounts : List (Addr × Nat)} {pools : List (Nat × Nat)}
+    {vals : List GenesisValidator} {retired : List Nat} {L : Ledger} (h : genesis cfg params accounts pools vals retired = .ok L) :
+    (vals.map (·.addr)).Nodup ∧ (accounts.map (·.1)).Nodup ∧ (pools.map (·.1)).Nodup := by
+  unfold genesis at h
+  split at h
+  · exact absurd h (by intro h; cases h)
+  · next hval =>
+    unfold validateGenesis at hval
+    split at hval
+    · exact absurd hval (by intro h; cases h)
+    · split at hval
+      · exact absurd hval (by intro h; cases h)
+      · split at hval
+        · exact absurd hval (by intro h; cases h)
+        · next hdv =>
+          split at hval
+          · exact absurd hval (by intro h; cases h)
+          · next hda =>
+            split at hval
+            · exact absurd hval (by intro h; cases h)
+            · next hdp =>
+              exact ⟨hasDup_false_nodup _ (by simpa using hdv), hasDup_false_nodup _ (by simpa using hda),
+                hasDup_false_nodup _ (by simpa using hdp)⟩
+
+/-- the loader rejects a genesis listing a validator, an account or a pool twice, with the pinned errors -/
+theorem genesis_rejects_duplicates :
+    genesis {} {} [(1, 5), (1, 7)] [] [] [] = .error .invalidAddress ∧ genesis {} {} [] [(9, 5), (9, 7)] [] [] = .error .invalidChainId ∧
+    genesis {} {} [] [] [{ addr := 3, val := { stake := 5, committees := [1], delegate := false, compound := false, output := 3 } }, { addr := 3, val := { stake := 6, committees := [1], delegate := false, compound := false, output := 3 } }] [] = .error .invalidAddress := by
+  decide
 
 /-- an end-of-block on a live ledger keeps the four tallies, the no-duplicate-keys facts and the soundness of the
 unstaking markers (`Live`), see `never_wedged_partial` -/
